@@ -7,3 +7,11 @@ pub proof fn axiom_str_ext(a: &str)
     ensures forall|b: &str| (#[trigger] b@) == a@ ==> b == a,
 {
 }
+/// ASSUMED (A3): Rust never allocates more than isize::MAX bytes, so a Vec of a non-zero-sized element
+/// type has at most isize::MAX elements (std docs of Vec / Layout).  Only used for element types that
+/// are visibly non-zero-sized (enums with payload, &str, String).
+#[verifier::external_body]
+pub proof fn axiom_vec_len_bound<T>(v: &Vec<T>)
+    ensures v@.len() <= isize::MAX,
+{
+}
